@@ -3,6 +3,7 @@ CONSTANTS
   Triples <- MCTriples
   Reasons <- MCReasons
   Timeouts = FALSE
+  Strict = TRUE
   MaxReq = 2
 INVARIANT RefusalFaithful
 INVARIANT AbortFaithful
